@@ -30,7 +30,9 @@ theorem structUnpack_endian (be : Bool) (n : Nat) (buf : Bytes) :
 /-- `Parser._read_ints` is `Mo.readInts` -/
 theorem read_ints_eq (db : CodecDB) (self : Self) (be : Bool) (h : self._endian = endianOf be) (at_ n : Nat) :
     Parser._read_ints db self at_ n = readInts be self._view at_ n := by
-  simp only [Parser._read_ints, readInts, h, structUnpack_endian, decide_eq_true_eq]
+  simp only [Parser._read_ints]
+  mo_unfold_helpers
+  simp only [readInts, h, structUnpack_endian, decide_eq_true_eq]
 
 /-- `self._encoding`, `self._last_msgid`: the state of the model inside the generated object -/
 def stOf (self : Self) : St := ⟨self._encoding, self._last_msgid⟩
@@ -143,8 +145,9 @@ local macro "body_cases" : tactic => `(tactic| (
 set_option maxHeartbeats 2000000 in
 theorem parse_entry_eq (db : CodecDB) (self : Self) (be : Bool) (h : self._endian = endianOf be) (i a b : Nat) :
     Parser._parse_entry db self i a b = liftSt self (parseEntry db be self._view (stOf self) i a b) := by
-  simp only [Parser._parse_entry, parseEntry_staged, readString, read2, read_ints_eq db self be h,
-    Py.viewIndex, Py.tryExcept, Py.isIndexError]
+  simp only [Parser._parse_entry]
+  mo_unfold_helpers
+  simp only [parseEntry_staged, readString, read2, read_ints_eq db self be h, Py.viewIndex, Py.tryExcept, Py.isIndexError]
   cases h1 : readInts be self._view a 2 with
   | error e => rfl
   | ok ws =>
@@ -279,7 +282,9 @@ set_option maxHeartbeats 1000000 in
 /-- `Parser._parse` (header, flag, loop) is `Mo.parse` -/
 theorem parse_body_eq (db : CodecDB) (self : Self) (hi : self.instance_ = ⟨[], false⟩) :
     instOf (Parser._parse db self) = Mo.parse db self._encoding self._view := by
-  simp only [Parser._parse, Mo.parse, magic_le, magic_be, decide_eq_true_eq]
+  simp only [Parser._parse]
+  mo_unfold_helpers
+  simp only [Mo.parse, magic_le, magic_be, decide_eq_true_eq]
   split
   · rename_i e heq
     by_cases hle : slice self._view 0 4 = leMagic
@@ -358,7 +363,9 @@ theorem parse_body_eq (db : CodecDB) (self : Self) (hi : self.instance_ = ⟨[],
 /-- `Parser.__init__` (with the file's bytes for `open(path, 'rb').read()`), then `.parse()` -/
 theorem init_eq (db : CodecDB) (enc : Option Bytes) (bytes : Bytes) :
     instOf (Parser.__init__ db Self.unset bytes () enc false ()) = Mo.parse db enc bytes := by
-  simp only [Parser.__init__, Bool.false_eq_true, if_false, Py.viewIndex, decide_eq_true_eq]
+  simp only [Parser.__init__]
+  mo_unfold_helpers
+  simp only [Bool.false_eq_true, if_false, Py.viewIndex, decide_eq_true_eq]
   split
   · rename_i e heq
     exfalso
